@@ -87,6 +87,15 @@ def _worker(states):
     for st in states:
         if st.get('phase') != 2:
             continue
+        if st['mode'] == 'ctor':              # construction of a spec: 'ok' or the documented exception class
+            spec = st['spec']
+            got = B.construct((lambda: B.mkspec(spec, B.Ctx())) if spec['op'] == 'wrap' else B.CTOR_CALLS[spec['name']])
+            out['n'] += 1
+            out['ctor'] = out.get('ctor', 0) + 1
+            if got != st['pred']['ctor']:
+                out['bad'].append(dict(why='constructing it gave %s, documented: %s' % (got, st['pred']['ctor']),
+                                       case=dict(kind='ctor', spec=spec, pred=st['pred'], obs=got)))
+            continue
         out['cases'] += 1
         o = st['pred']
         spec = st['spec']
@@ -123,7 +132,7 @@ def record(check, n, seed):
     inputs = []
     for _ in range(n):
         mode = rng.choice(['auto', 'match'])
-        inputs.append((mode, G.gen_tree(rng, mode, rng.randint(1, 5), [0]), G.rand_target(rng)))
+        inputs.append((mode, B.normalize(G.gen_tree(rng, mode, rng.randint(1, 5), [0])), G.rand_target(rng)))
     rows = [r for r in B.pmap(record_row, inputs) if not (r['obs']['ok'] and 'opaque' in json.dumps(r['obs']['v']))]
     rejects = vlib.validate_rows(check, 'Trace_C10', rows, 'random-trees', chunk=4000)
     for row, rej in rejects:
@@ -182,7 +191,14 @@ MUTANTS = [('or_last', ('Result', 'ShortCircuit'), dict(Depth=1, Wide='FALSE')),
            # the three behaviours of glom before its repair
            ('not_glomerror', ('Rejects',), dict(Depth=1, Wide='FALSE')),
            ('check_default_ignored', ('Decides', 'Defaults'), dict(Depth=1, Wide='FALSE')),
-           ('opform_drops_default', ('Decides', 'Result', 'Rejects', 'Defaults'), dict(Depth=2, Wide='FALSE'))]
+           ('opform_drops_default', ('Decides', 'Result', 'Rejects', 'Defaults'), dict(Depth=2, Wide='FALSE')),
+           # one plausible wrong mechanism per further construct
+           ('switch_last_match', ('Result', 'ShortCircuit', 'Decides'), dict(Depth=1, Wide='FALSE')),       # Switch (list / dict form)
+           ('m_reflected_unswapped', ('Decides',), dict(Depth=1, Wide='FALSE')),                            # constant op M
+           ('msub_returns_sub', ('Result', 'Passthrough'), dict(Depth=1, Wide='FALSE')),                    # M(T[..]) op c
+           ('check_returns_subtarget', ('Result', 'Passthrough'), dict(Depth=1, Wide='FALSE')),             # Check(spec, ..)
+           ('unorderable_is_rejection', ('Unorderable',), dict(Depth=1, Wide='FALSE')),                     # unorderable operands
+           ('required_constant_allowed', ('CtorLaw',), dict(Depth=1, Wide='FALSE'))]                        # Optional / Required construction
 
 
 def main(tier, seed):
@@ -194,13 +210,15 @@ def main(tier, seed):
     res, results = vlib.map_states('MC_C10', worker, constants=consts)
     check.add_tlc(res, 'MC_C10 %s' % consts)
     tot = dict(cases=0, ok=0, fail=0, foreign=0, opform=0, checks=0)
+    nctor = 0
     by_op = {}
     for r in results:
         if 'error' in r:
             raise vlib.MachineryError('replay worker failed:\n' + r['error'])
         check.cov['evaluations'] += r['n']
         check.cov['distinct_nontrivial'] += r['nontrivial']
-        check.validated(r['cases'] - len(r['bad']))
+        check.validated(r['cases'] + r.get('ctor', 0) - len(r['bad']))
+        nctor += r.get('ctor', 0)
         for k in tot:
             tot[k] += r[k]
         for op, cs in r['by_op'].items():
@@ -213,6 +231,9 @@ def main(tier, seed):
             check.violation(b['case'], b['why'], matcher=match_finding)
     check.extra['cases'] = dict(total=tot['cases'], predicted_success=tot['ok'], predicted_failure=tot['fail'],
                                 foreign_error=tot['foreign'], with_operator_forms=tot['opform'], check_cases=tot['checks'])
+    check.extra['cases']['constructor_cases'] = nctor
+    if nctor == 0:
+        problems.append('no constructor cases')
     check.extra['cases']['by_mode_and_root'] = {op: dict(success=c[0], glom_error=c[1], foreign_error=c[2])
                                                for op, c in sorted(by_op.items())}
     # vacuity: every combinator, in both modes, passes and rejects
@@ -259,6 +280,11 @@ def replay(path):
         rej = vlib.validate_rows(tmp, 'Trace_C10', [new], 'replay')
         print('rejected by the specification: %s' % [j for _, j in rej])
         return 1 if rej else 0
+    if case.get('kind') == 'ctor':
+        spec = case['spec']
+        got = B.construct((lambda: B.mkspec(spec, B.Ctx())) if spec['op'] == 'wrap' else B.CTOR_CALLS[spec['name']])
+        print(json.dumps(dict(spec=spec, documented=case['pred']['ctor'], observed=got)))
+        return 0 if got == case['pred']['ctor'] else 1
     ob = run_case(case['mode'], case['spec'], case['target'])
     why = judge(case['pred'], ob)
     print(json.dumps(dict(mode=case['mode'], spec=case['spec'], target=case['target'], predicted=case['pred'],
